@@ -15,7 +15,13 @@ Storage world.  Two families:
 Oracle (from the property statement): loading a truncated / crashed image yields exactly the
 completely written flows, in order, then a clean end or FlowReadException; at every instant
 between hooks the durable image of a stream file ends at a flow boundary and holds every flow
-whose write has completed.
+whose write has completed.  "Complete up to the last finished flow": a reference model of stream
+saving (enabled <=> option ``save_stream_file`` is set; a flow is finished by response / error /
+websocket_end / tcp_end / tcp_error / udp_end / udp_error / dns_response / dns_error; the filter
+is evaluated independently; the file is the strftime expansion of the option at that moment)
+says which flows are due in which file; after every step they must be a subsequence of the records
+of the durable image (which the real FlowReader must load completely), no matter whether the
+addon has seen the start hook of the flow or whether streaming was enabled at that time.
 """
 from __future__ import annotations
 
@@ -24,6 +30,7 @@ import contextlib
 import hashlib
 import io
 import logging
+from datetime import datetime, timedelta
 
 from models import flowfile_c36 as M
 from props.c36 import _where, seams
@@ -41,8 +48,12 @@ CHUNK = 20
 RULE = ("sampled case = a file history: (writer family) 1-6 seeded flows of mixed type (HTTP, WebSocket, TCP, UDP, DNS) "
         "written by FlowWriter/FilteredFlowWriter (filter, append onto an earlier session, BufferedWriter size 16..64 KiB, "
         "short writes), or (save family) a generated hook history of 2-6 interleaved flows through the real Save addon "
-        "(stream file/filter option changes, strftime rotation by clock advance, save.file commands, shutdown, short "
-        "writes, ENOSPC on the n-th write); per case a crash is probed after every add()/step and EVERY truncation "
+        "(per flow one of the layer's hook sequences incl. requestheaders->error without a request hook and errors before "
+        "the WebSocket upgrade; stream file/filter option changes incl. enabling, disabling and re-pointing stream saving "
+        "between the start and the end hook of flows in flight; strftime rotation by clock advance, save.file commands, "
+        "shutdown, short writes, ENOSPC on the n-th write); after every step every flow that finished (final hook "
+        "returned) while stream saving was enabled and the filter matched must be in the durable image of the stream "
+        "file of that moment; per case a crash is probed after every add()/step and EVERY truncation "
         "offset 0..len of every resulting file is loaded with the real FlowReader; non-trivial = at least one file with "
         ">= 1 complete flow was enumerated; distinct = distinct digests of (file layouts, per-step probe results, "
         "outcome histogram)")
@@ -61,18 +72,41 @@ ASSUMPTIONS = ["a process crash loses exactly the bytes still held in Python-lev
                "flows written by Save.done() for still-active flows come in set order: compared as written, digested as multiset"]
 EXPECTED_PROBES = ["offsets_enumerated", "full_runs", "tail_runs", "clean_end", "flow_read_error", "crash_probes",
                    "files_enumerated", "save_hooks", "save_rotations", "save_cmd", "save_done_active", "append_mode",
-                   "filtered_out", "process_exit", "crosschecked"]
+                   "filtered_out", "process_exit", "crosschecked", "finished_flow_due", "error_without_request_hook",
+                   "stream_enabled_mid_flow", "stream_restarted_mid_flow"]
 
 FILTERS = [None, None, "~http", "~tcp", "~udp", "~dns", "~websocket", "!~tcp", "~http | ~dns"]
-HOOKS = {
-    "http": [["request"], ["response", "error"]],
-    "ws": [["request"], ["response"], ["websocket_end", "websocket_end", "error"]],
-    "tcp": [["tcp_start"], ["tcp_end", "tcp_error"]],
-    "udp": [["udp_start"], ["udp_end", "udp_error"]],
-    "dns": [["dns_request"], ["dns_response", "dns_error"]],
+# Hook histories of one flow, as the proxy layers deliver them (weights in the second column).
+#  * ``requestheaders -> error``: the request failed while it was still being read (client gone, malformed body,
+#    body_size_limit, killed in requestheaders): the ``request`` hook never fires (layers/http: check_body_size,
+#    check_killed(True), handle_protocol_error).
+#  * a WebSocket flow is a plain HTTP flow (``flow.websocket is None``) until the layer sets ``flow.websocket`` right
+#    before the ``response`` hook of the 101; the executor mirrors that.  ``request -> response -> error`` on an
+#    upgraded flow is never produced by the real layer (server_state is done after ``response``); it is kept in the
+#    history space with a small weight and carries no completeness demand.
+SEQS = {
+    "http": [(["request", "response"], 5), (["request", "error"], 2), (["requestheaders", "error"], 3)],
+    "ws": [(["request", "response", "websocket_end"], 6), (["request", "error"], 1), (["requestheaders", "error"], 2),
+           (["request", "response", "error"], 1)],
+    "tcp": [(["tcp_start", "tcp_end"], 1), (["tcp_start", "tcp_error"], 1)],
+    "udp": [(["udp_start", "udp_end"], 1), (["udp_start", "udp_error"], 1)],
+    "dns": [(["dns_request", "dns_response"], 1), (["dns_request", "dns_error"], 1)],
 }
+START_HOOKS = {"request", "tcp_start", "udp_start", "dns_request"}
+# hooks that can be delivered for a flow of each kind (a shrunk scenario may pair a hook with a flow of another kind)
+KIND_HOOKS = {k: {h for seq, _ in v for h in seq} for k, v in SEQS.items()}
 STREAM_PATHS = ["/sim/a.mitm", "+/sim/a.mitm", "/sim/b.mitm", "+/sim/sub/dir/c.mitm", "/sim/rot-%M.mitm",
                 "+/sim/rot-%H%M%S.mitm"]
+
+
+def is_final_hook(name, upgraded):
+    """Is ``name`` the hook that finishes a flow?  (``upgraded`` = flow.websocket is set: such a flow is finished by
+    websocket_end, not by the response to the handshake.)"""
+    if name in ("tcp_end", "tcp_error", "udp_end", "udp_error", "dns_response", "dns_error", "websocket_end"):
+        return True
+    if name in ("response", "error"):
+        return not upgraded
+    return False
 
 
 def matches(flt, kind):
@@ -122,23 +156,42 @@ def generate(rng, tier):
     n = max(2, n)
     kinds = (kinds + [r.choice(M.KINDS)])[:n]
     flows = [_small_spec(r, k, i) for i, k in enumerate(kinds)]
-    queues = {i: [r.choice(alts) for alts in HOOKS[k]] for i, k in enumerate(kinds)}
-    # an error can end a websocket flow before the upgrade completes
+    queues = {}
+    for i, k in enumerate(kinds):
+        seqs, weights = zip(*SEQS[k])
+        queues[i] = list(r.choices(seqs, weights=weights)[0])
     steps = []
+    enabled = False
 
-    def opt():
-        return {"op": "opt", "file": r.choice(STREAM_PATHS + [None]) if steps else r.choice(STREAM_PATHS),
-                "filter": r.choice(FILTERS)}
-    if r.random() < 0.85:
+    def opt(mode="any"):
+        nonlocal enabled
+        if mode == "on" or not steps:
+            f = r.choice(STREAM_PATHS)
+        elif mode == "off":
+            f = None
+        else:
+            f = r.choice(STREAM_PATHS + [None])
+        # a runtime enable keeps the filter wide more often, so that the flows in flight are due in the file
+        flt = r.choice(FILTERS) if mode != "on" or r.random() < 0.5 else None
+        enabled = f is not None
+        return {"op": "opt", "file": f, "filter": flt}
+    if r.random() < 0.7:
         steps.append(opt())
     started = set()
     while any(queues.values()):
         x = r.random()
-        if x < 0.08:
+        inflight = any(queues[i] for i in started)
+        if not enabled and inflight and x < 0.35:
+            # streaming is switched on at runtime between the start and the end hook of a flow
+            steps.append(opt("on"))
+        elif enabled and inflight and x < 0.05:
+            # ... or switched off (and usually on again later) with flows in flight
+            steps.append(opt("off"))
+        elif x < 0.10:
             steps.append(opt())
-        elif x < 0.14:
+        elif x < 0.16:
             steps.append({"op": "tick", "dt": r.choice([1, 30, 61, 3600])})
-        elif x < 0.20:
+        elif x < 0.22:
             steps.append({"op": "cmd", "flows": [r.randrange(n) for _ in range(r.randrange(1, 4))],
                           "path": r.choice(["/sim/cmd1.mitm", "+/sim/cmd1.mitm", "+/sim/out/cmd2.mitm"])})
         else:
@@ -149,8 +202,6 @@ def generate(rng, tier):
             started.add(i)
             name = queues[i].pop(0)
             steps.append({"op": "hook", "name": name, "flow": i})
-            if name == "error":
-                queues[i] = []
     if r.random() < 0.5:
         steps.insert(r.randrange(max(1, len(steps) - 2), len(steps) + 1), {"op": "done"})
     wf = []
@@ -326,9 +377,11 @@ def enumerate_truncations(ctx, who, image, expected, reader_kind, full, samples,
     ctx.log.append(("enum", who, n, len(recs), sorted(hist.items())))
 
 
-def check_image(ctx, who, where, image, done, maybe, reader_kind, step):
+def check_image(ctx, who, where, image, done, maybe, reader_kind, step, must=()):
     """Crash probe: ``image`` is what a crash right now leaves behind.  ``done`` = canonical states whose write has
-    completed, in order; ``maybe`` = canonical states of writes that failed or were cut short (may be present)."""
+    completed, in order; ``maybe`` = canonical states of writes that failed or were cut short (may be present);
+    ``must`` = [(canonical state, meta)] of the flows that have FINISHED while this file was the stream file, in
+    order (reference model of stream saving, independent of what the addon chose to write)."""
     recs, tail = M.tn_scan(image)
     ctx.probe("crash_probes")
     ctx.fault("crash")
@@ -356,6 +409,21 @@ def check_image(ctx, who, where, image, done, maybe, reader_kind, step):
         if i < len(want) and c is not None and c != want[i]:
             ctx.viol("stored_record_mismatch", {**key, "what": "content_or_order"},
                      f"{who} step {step}: record #{i} of the durable image is not flow write #{i}")
+    # "a stream file is complete up to the last finished flow at any moment": the finished flows are a subsequence
+    # of the stored records (other records: flows flushed by done() / an option change while still active)
+    pos = 0
+    for c, meta in must:
+        j = pos
+        while j < len(stored) and stored[j] != c:
+            j += 1
+        if j < len(stored):
+            pos = j + 1
+            continue
+        ctx.viol("finished_flow_missing", {**key, "case": meta["case"]},
+                 f"{who} step {step}: flow #{meta['flow']} ({meta['kind']}) finished with hook {meta['hook']!r} at step "
+                 f"{meta['step']} while stream saving to this file was enabled and the filter {meta['filter']!r} matched "
+                 f"({meta['case']}), but it is not in the durable image ({len(recs)} records, "
+                 f"{len(must)} finished flows due)")
     got, outcome, exc = run_reader(_reader_file(reader_kind, image, len(image)), len(recs) + 2)
     check_loaded(ctx, who, where, got, outcome, exc, stored, len(recs), len(image), len(image))
     return recs, stored
@@ -440,6 +508,16 @@ def exec_save(ctx, sc):
     from mitmproxy.io import tnetstring as mtn
 
     flows = [M.build_flow(s) for s in sc["flows"]]
+    kinds = [s["kind"] for s in sc["flows"]]
+    # a WebSocket flow is a plain HTTP flow until its 101 response: flow.websocket appears at the response hook
+    ws_data = {}
+    for i, f in enumerate(flows):
+        if kinds[i] == "ws":
+            ws_data[i] = f.websocket
+            f.websocket = None
+    start_seen = {}  # flow -> (streaming enabled at its start hook?, enable epoch)
+    epoch = [0]      # bumped whenever stream saving is (still) off after an option change
+    due = set()      # flows that finished while stream saving was enabled and the filter matched
     clock = [1_700_000_000.0]
     fs = simfs.SimFS(write_faults=sc.get("write_faults", []), buffer_size=sc.get("buffer"), clock=lambda: clock[0])
     timeline = []  # ("open", path, mode) | ("add", path, canon) | ("add_failed", ...) | ("buffered", ...) | ("cmd_done"/"cmd_failed", path)
@@ -484,10 +562,12 @@ def exec_save(ctx, sc):
         st = {}
         for ev in timeline:
             p = ev[1]
-            s = st.setdefault(p, {"done": [], "maybe": [], "pend": []})
+            s = st.setdefault(p, {"done": [], "maybe": [], "pend": [], "must": []})
             if ev[0] == "open":
                 if "w" in ev[2]:
-                    s["done"], s["maybe"], s["pend"] = [], [], []
+                    s["done"], s["maybe"], s["pend"], s["must"] = [], [], [], []
+            elif ev[0] == "must":
+                s["must"].append((ev[2], ev[3]))
             elif ev[0] == "add":
                 s["done"].append(ev[2])
             elif ev[0] == "add_failed":
@@ -505,10 +585,12 @@ def exec_save(ctx, sc):
     def probe_all(step):
         st = fold()
         summary = []
-        for p, img in fs.images().items():
-            s = st.get(p, {"done": [], "maybe": [], "pend": []})
+        images = fs.images()
+        for p in sorted(set(images) | {q for q, s in st.items() if s["must"]}):
+            img = images.get(p, b"")
+            s = st.get(p, {"done": [], "maybe": [], "pend": [], "must": []})
             recs, _ = check_image(ctx, "Save", "crash_after_step", img, s["done"], s["maybe"] + s["pend"],
-                                  sc["reader"], step)
+                                  sc["reader"], step, must=s["must"])
             summary.append((p, len(img), len(recs)))
         ctx.log.append(("probe", step, summary))
 
@@ -538,13 +620,48 @@ def exec_save(ctx, sc):
                                 opts.update(save_stream_file=step["file"], save_stream_filter=step["filter"])
                             except exceptions.OptionsError as e:
                                 ctx.log.append(("options_error", k, str(e)[:60]))
+                            if not opts.save_stream_file:
+                                epoch[0] += 1
                         elif op == "tick":
                             clock[0] += step["dt"]
                         elif op == "hook":
-                            if step["flow"] >= len(flows):
-                                continue
+                            i, name = step["flow"], step["name"]
+                            if i >= len(flows) or name not in KIND_HOOKS[kinds[i]]:
+                                continue  # only in shrunk scenarios: no such flow / hook of another flow type
                             ctx.probe("save_hooks")
-                            await m.addons.handle_lifecycle(hooks.all_hooks[step["name"]](flows[step["flow"]]))
+                            f = flows[i]
+                            if kinds[i] == "ws" and name == "response" and f.websocket is None:
+                                # layers/http send_response(): set right before the response hook of the 101
+                                f.websocket = ws_data[i]
+                            upgraded = getattr(f, "websocket", None) is not None
+                            # reference model: the user-visible configuration at the moment of the hook
+                            sfile, sflt = opts.save_stream_file, opts.save_stream_filter
+                            if name in START_HOOKS:
+                                start_seen.setdefault(i, (bool(sfile), epoch[0]))
+                            await m.addons.handle_lifecycle(hooks.all_hooks[name](f))
+                            # (not reached when the addon terminated the process because the write failed)
+                            if sfile and is_final_hook(name, upgraded) and i not in due:
+                                ekind = "http" if kinds[i] == "ws" and not upgraded else kinds[i]
+                                if matches(sflt, ekind):
+                                    if i not in start_seen:
+                                        case = "no_start_hook"
+                                        if name == "error":
+                                            ctx.probe("error_without_request_hook")
+                                    elif not start_seen[i][0]:
+                                        case = "started_before_enable"
+                                        ctx.probe("stream_enabled_mid_flow")
+                                    elif start_seen[i][1] != epoch[0]:
+                                        case = "stream_restarted_mid_flow"
+                                        ctx.probe("stream_restarted_mid_flow")
+                                    else:
+                                        case = "started_while_streaming"
+                                    due.add(i)
+                                    ctx.probe("finished_flow_due")
+                                    spec = sfile[1:] if sfile.startswith("+") else sfile
+                                    now = datetime(1970, 1, 1) + timedelta(seconds=clock[0])
+                                    timeline.append(("must", fs.norm(now.strftime(spec)), M.canon(f.get_state()),
+                                                     {"case": case, "hook": name, "flow": i, "kind": kinds[i], "step": k,
+                                                      "filter": sflt}))
                         elif op == "cmd":
                             ctx.probe("save_cmd")
                             sel = [flows[i] for i in step["flows"] if i < len(flows)]
